@@ -456,21 +456,18 @@ fn vp_refuse() -> ! { panic!() }
 
 // ---- C14 guards, refusal mode: if the guard returns, its condition held ----------------------
 //@extract file=canister/src/lib.rs item="fn verify_network" props=C14 mode=refuse
-//@ rewrite R7 "with_state\(\|state\| \{" => "{ let state: &State = vp_state(); {"
-//@ rewrite R7 "\}\);\s*\}$" => "}; } }"
+//@ r7 ro="vp_state()" type=State
 //@ spec
 //@| ensures global_state().utxos.network == network,
 //@end
 //@extract file=canister/src/lib.rs item="fn verify_api_access" props=C14 mode=refuse
-//@ rewrite R7 "with_state\(\|state\| \{" => "{ let state: &State = vp_state(); {"
-//@ rewrite R7 "\}\);\s*\}$" => "}; } }"
+//@ r7 ro="vp_state()" type=State
 //@ spec
 //@| ensures global_state().api_access != Flag::Disabled,
 //@end
 //@extract file=canister/src/lib.rs item="fn is_synced" props=C14
 //@ ret r
-//@ rewrite R7 "with_state\(\|state\| \{" => "{ let state: &State = vp_state(); {"
-//@ rewrite R7 "\}\)\s*\}$" => "} } }"
+//@ r7 ro="vp_state()" type=State
 //@ spec
 //@| requires state_ranges(&global_state()),
 //@| ensures r == synced_spec(&global_state()),
@@ -478,8 +475,7 @@ fn vp_refuse() -> ! { panic!() }
 //@| proof { lemma_best_path_le_depth(&state.unstable_blocks.tree); }
 //@end
 //@extract file=canister/src/lib.rs item="fn verify_synced" props=C14 mode=refuse
-//@ rewrite R7 "with_state\(\|state\| \{" => "{ let state: &State = vp_state(); {"
-//@ rewrite R7 "\}\);\s*\}$" => "}; } }"
+//@ r7 ro="vp_state()" type=State
 //@ spec
 //@| requires state_ranges(&global_state()),
 //@| ensures global_state().disable_api_if_not_fully_synced != Flag::Disabled ==> synced_spec(&global_state()),
